@@ -60,6 +60,8 @@
 //                (init-equal vars-equal pud-equal gap-equal) and the closed forms over Rat to be within
 //                X_k((1+eps)^(k+1)-1), eps = 2^-24+2^-53+2^-77 (bound-ok; bound-skipped when some logged value is
 //                not a normal float: the relative error bound of a rounding does not hold there).
+//     rounding stream (cases r*): the driver's IEEE rounding model itself against the FPU on `float *= double`
+//     (subnormal and overflowing results included), `double /= double` and the float gap expression; exact equality.
 #include <algorithm>
 #include <climits>
 #include <cmath>
@@ -988,6 +990,51 @@ static void emitLoopTie(vh::Out &out, const Case &cs, const std::string &res) {
 #endif
 }
 
+// The rounding model of the Lean driver (GlobalLoop.Rounding.ieee) against the FPU, on the three expression shapes
+// of GlobalPlacer::run: `f *= d` (float times double, stored to float), `d /= d`, `(ub - lb) / ub` in floats.
+static void roundingCase(vh::Out &out, vh::Rng &g) {
+  auto rndFloat = [&](int emin, int emax) {
+    long long m = g.chance(1, 6) ? (1ll << g.range(0, 23)) : g.range(1, (1ll << 24) - 1);
+    float f = std::ldexp((float)m, (int)g.range(emin, emax));
+    return g.chance(1, 8) ? -f : f;
+  };
+  auto rndDouble = [&](int emin, int emax) {
+    long long m = g.chance(1, 6) ? (1ll << g.range(0, 52)) : g.range(1, (1ll << 53) - 1);
+    if (g.chance(1, 4)) m = (m >> 29) << 29;  // a double that is a float: short products, more ties
+    if (m == 0) m = 1;
+    double d = std::ldexp((double)m, (int)g.range(emin, emax));
+    return g.chance(1, 8) ? -d : d;
+  };
+  int kind = g.range(0, 2);
+  if (kind == 0) {
+    int sel = g.range(0, 5);
+    // results over the whole float range, subnormal and overflowing ones included
+    volatile float a = sel == 0 ? rndFloat(-172, -140) : (sel == 1 ? rndFloat(80, 104) : rndFloat(-60, 60));
+    static const double special[] = {1.0, 1.0 + 1.0 / 16777216.0, 1.0 - 1.0 / 33554432.0, 1.5, 0.5 + 1.0 / 33554432.0, 2.0 - 1.0 / 1048576.0, 0.8, 1.2};
+    volatile double b = g.chance(1, 4) ? special[g.range(0, 7)] : (sel == 1 ? rndDouble(-30, -20) : rndDouble(-56, -50));
+    volatile float r = a;
+    r *= b;  // as `penalty_ *= params_.global.penalty.updateFactor`
+    out.ops << "gmulfd " << dyTok(a) << " " << dyTok(b) << "\n";
+    out.impl << "r " << dyTok(r) << "\n";
+    float rr = r;
+    out.count(std::isinf(rr) ? "rounding_mul_overflow" : (rr != 0 && std::fabs(rr) < std::ldexp(1.0f, -126) ? "rounding_mul_subnormal" : (rr == 0 ? "rounding_mul_zero" : "rounding_mul_normal")));
+  } else if (kind == 1) {
+    volatile double a = rndDouble(-70, -30), b = g.chance(1, 3) ? (double)g.range(1, 9) / 2.0 : std::fabs(rndDouble(-53, -50));
+    volatile double r = a;
+    r /= b;  // as `nextPenaltyUpdateDistance /= params_.global.penaltyUpdateBackoff`
+    out.ops << "gdivd " << dyTok(a) << " " << dyTok(b) << "\n";
+    out.impl << "r " << dyTok(r) << "\n";
+    out.count("rounding_div_double");
+  } else {
+    volatile float lb = std::fabs(rndFloat(-30, 10)), ub = std::fabs(rndFloat(-30, 10));
+    if (g.chance(1, 3)) lb = ub * (1.0f - 1.0f / (float)g.range(2, 5000));
+    volatile float gap = (ub - lb) / ub;
+    out.ops << "ggap " << dyTok(lb) << " " << dyTok(ub) << "\n";
+    out.impl << "r " << dyTok(gap) << "\n";
+    out.count("rounding_gap_float");
+  }
+}
+
 static std::ofstream *digestOut = nullptr;  // "<case> <status> <loop steps> <zero wirelength> <digest>" per end-to-end case
 
 static void oracleCase(vh::Out &out, uint64_t seed, long long k, bool bigger, const std::string &corpusFile = "") {
@@ -1148,7 +1195,10 @@ int main(int argc, char **argv) {
              "penalty.updateFactor over (1,2) with step limits up to the default 400, stop tolerances down to 0, distance update factors "
              "over [0.8,1.2], numerical knobs in the C06 box; non-trivial = at least two UB callbacks and last LB != last UB for some "
              "movable cell; distinct by circuit+parameter text; measured: e2e_zero_wirelength, e2e_stopped_at_first_step, "
-             "e2e_ran_to_step_limit, e2e_penalty_would_overflow_at_step_limit, e2e_failures_*";
+             "e2e_ran_to_step_limit, e2e_penalty_would_overflow_at_step_limit, e2e_failures_*. "
+             "(c) per end-to-end case the control loop of GlobalPlacer::run against the Lean model GlobalLoop.run: callback order / outcome / "
+             "iterations (loop_shape_cases), KF-C06-1 classifier verdicts (loop_drift_*), and with hook H5 the bit-for-bit replay of the "
+             "logged floats (loop_replay_cases, loop_exit_*; loop_replay_unavailable_no_hook_H5 otherwise); rounding model vs FPU (rounding_*)";
   // replay: only the named case
   long long only = a.only;
   std::string onlyKind;
@@ -1191,6 +1241,17 @@ int main(int argc, char **argv) {
     out.beginCase();
     gridCase(out, id, g);
     out.endCase();
+  }
+  // rounding model
+  long long nr = a.thorough() ? 40000 : 4000;
+  for (long long i = 0; i < nr; ++i) {
+    if (only >= 0 && !(onlyKind == "r" && only == i)) continue;
+    vh::Rng g = vh::Rng::forCase(a.seed, 3000000 + i);
+    std::string id = "r" + std::to_string(i);
+    out.ops << "case " << id << "\n";
+    out.impl << "case " << id << "\n";
+    out.evaluations++;
+    roundingCase(out, g);
   }
   // (b) corpus witnesses first
   std::ofstream digestFile(a.out + "/e2e_digest.txt");
